@@ -482,6 +482,18 @@ pub fn run(sink: &mut Sink, rng: &mut Rng, thorough: bool) {
         }
       }));
       sink.count("direct:fits-moc-id-length");
+      if len >= 1 && len <= 68 {
+        // the whole file with the MOCID card (and, every other length, a MOCTYPE card) against the model's file
+        use moc::deser::fits::keywords::MocType as KwMocType;
+        let ty = if len % 2 == 0 { Some(KwMocType::Catalog) } else if len == 67 { Some(KwMocType::Image) } else { None };
+        let tytxt = match ty { Some(KwMocType::Catalog) => "CATALOG", Some(KwMocType::Image) => "IMAGE", None => "_" };
+        let mut buf = Vec::new();
+        if (&m).into_range_moc_iter().to_fits_ivoa(Some(id.clone()), ty, &mut buf).is_ok() {
+          let mut h: u64 = 14695981039346656037;
+          for x in buf.iter() { h = (h ^ (*x as u64)).wrapping_mul(1099511628211); }
+          sink.emit(&format!("fits_file_id time 64 21 {} {} {}", hex(id.as_bytes()), tytxt, fmt_ranges(&l)), &format!("{}:{}", buf.len(), h), true);
+        }
+      }
       let expected = format!("21|{}", fmt_ranges(&l));
       if ans == "panic" || (ans != "err" && !ans.contains(&expected)) || (len <= 68 && ans == "err") {
         sink.impl_failures.push(format!("fits-moc-id: to_fits_ivoa(Some(<{} chars>)) -> {}", len, ans));
